@@ -273,6 +273,35 @@ Example C06_same_tick_nonvacuous :
      = ([ [0]; [0;1]; [0;1]; [0;1]; [0;1]; [0;1]; [1;2]; [1;2]; [1;2]; [1;2]; [2]; [] ])%nat.
 Proof. vm_compute. repeat split. Qed.
 
+(** 6c. Scene changes: one callback removes tracks AND schedules as many new ones (the number of tracks is back at its value from the
+    start of the tick).  [exec_cb_ops] runs any LIST of operations; [tick_one] looks the id up in the CURRENT list - not in a count -
+    (C07_snapshot_removed, C06_gone_for_good): whatever the callback goes on to do after removing a track, the track stays out
+    and takes no turn - no call - in that tick or later. *)
+Theorem C06_removed_by_callback_silent : forall cfg tl id ops, wf tl -> (id < next_id tl)%nat -> find_track id (tracks tl) = None ->
+  find_track id (tracks (exec_cb_ops cfg tl ops)) = None
+  /\ tick_one cfg (exec_cb_ops cfg tl ops) id = (exec_cb_ops cfg tl ops, [], None).
+Proof. exact removed_by_callback_takes_no_turn. Qed.
+Print Assumptions C06_removed_by_callback_silent.
+Theorem C06_unschedule_then_anything : forall cfg tl id tr ops, wf tl -> find_track id (tracks tl) = Some tr ->
+  let tl1 := fst (exec_op cfg tl (OUnschedule id)) in
+  find_track id (tracks (exec_cb_ops cfg tl1 ops)) = None
+  /\ tick_one cfg (exec_cb_ops cfg tl1 ops) id = (exec_cb_ops cfg tl1 ops, [], None).
+Proof. exact unschedule_then_anything. Qed.
+
+(* non-vacuity (tau = 1): caller (id 0) fires on tick 2: unschedule track 1, schedule a new track - two tracks before, two after;
+   track 1 (placed after the caller, a note due on that very tick) does not play on tick 2; its sounding note is released on time *)
+Definition sc_cfg : config :=
+  mkConfig 1 [(CbNone, [OUnschedule 1; OSchedule (mkStream [ex_ev 90 2 1] 0 true) None None None true None true])] 0 0 false false None 8.
+Definition sc_ops : list op :=
+  [OSchedule (mkStream [REvent (mkEvent 2 false (KAction 0)); REvent (mkEvent 8 true (KAction 0))] 0 false) None None None true None true;
+   OSchedule (mkStream [ex_ev 60 2 3] 0 true) None None None true None true] ++ repeat OTick 6.
+Example C06_scene_change_nonvacuous :
+  map ons (run sc_cfg tl0 sc_ops) = [ []; []; [60]; []; []; [90]; []; [90] ]
+  /\ map snd (run sc_cfg tl0 sc_ops) = ([ [0]; [0;1]; [0;1]; [0;1]; [0;2]; [0;2]; [0;2]; [0;2] ])%nat
+  /\ map (fun o => flat_map (fun c => match c with CNoteOff n _ => [n] | _ => [] end) (fst (fst o))) (run sc_cfg tl0 sc_ops)
+     = [ []; []; []; []; []; [60]; [90]; [] ].
+Proof. vm_compute. repeat split. Qed.
+
 (** 7. Interpolating tracks (control tracks scheduled with interpolate = linear / cosine; model: Sched/Interp.v, the
     lifecycle around it: Sched/InterpLife.v, lemmas Sched/InterpLifeProofs.v).  The non-interpolating statements above
     (C06_muted) speak about Model.perform_event; the interpolating branch of Track.tick reaches perform_event from two
